@@ -3,6 +3,8 @@ package rules
 import (
 	"fmt"
 	"go/token"
+	"os"
+	"regexp"
 	"strings"
 
 	"golang.org/x/tools/go/ssa"
@@ -88,6 +90,8 @@ func ruleFlows(r *core.Run, prop string) {
 }
 
 // matchFlowRow: index of the first row of fnName/method that the argument terms satisfy, or -1 and why not.
+var reDeref = regexp.MustCompile(`(^|[(,\[])\*`)
+
 func matchFlowRow(rows []flowRow, fnName, method string, args []string) (int, string) {
 	matched := -1
 	why := "no row for this function/method"
@@ -122,6 +126,9 @@ func matchFlowRow(rows []flowRow, fnName, method string, args []string) (int, st
 		} else if len(rest) == 1 {
 			amount = rest[0]
 		}
+		// a value reached through a pointer parameter of a helper is rendered with a dereference mark: the record
+		// is the same one
+		party, amount = reDeref.ReplaceAllString(party, "$1"), reDeref.ReplaceAllString(amount, "$1")
 		if ok && row.Party != "" && !guard.Glob(normT(row.Party)).MatchString(party) {
 			ok = false
 			why = "counter-party " + shorten(party) + " is not " + row.Party
@@ -180,7 +187,10 @@ func matchThroughCallersD(r *core.Run, rows []flowRow, f *ssa.Function, method s
 			for i, a := range args {
 				inst[i] = normT(guard.SubstParams(a, subst))
 			}
-			m, _ := matchFlowRow(rows, r.P.Name(caller), method, inst)
+			m, why := matchFlowRow(rows, r.P.Name(caller), method, inst)
+			if os.Getenv("SAODEBUG") == "flow" {
+				fmt.Fprintf(os.Stderr, "flow: %s <- %s depth=%d inst=%v m=%d why=%s\n", r.P.Name(f), r.P.Name(caller), depth, inst, m, why)
+			}
 			if m < 0 {
 				// the caller may itself be a helper of a tabled function
 				m2, ok := matchThroughCallersD(r, rows, caller, method, inst, depth+1)
